@@ -35,37 +35,36 @@ impl AtomicUsize {
     pub fn load(&self, o: Ordering) -> usize {
         rt::before(&self.id, self.addr());
         let r = self.v.load(Ordering::SeqCst);
-        rt::after(&self.id, self.addr(), OpKind::Load, o, o, r, r);
-        r
+        rt::after(&self.id, self.addr(), OpKind::Load, o, o, r, r)
     }
     pub fn store(&self, val: usize, o: Ordering) {
         rt::before(&self.id, self.addr());
-        self.v.store(val, Ordering::SeqCst);
-        rt::after(&self.id, self.addr(), OpKind::Store, o, o, val, val);
+        let old = self.v.swap(val, Ordering::SeqCst);
+        let _ = rt::after(&self.id, self.addr(), OpKind::Store, o, o, old, val);
     }
     pub fn fetch_add(&self, val: usize, o: Ordering) -> usize {
         rt::before(&self.id, self.addr());
         let r = self.v.fetch_add(val, Ordering::SeqCst);
-        rt::after(&self.id, self.addr(), OpKind::Rmw, o, o, r, r.wrapping_add(val));
+        let _ = rt::after(&self.id, self.addr(), OpKind::Rmw, o, o, r, r.wrapping_add(val));
         r
     }
     pub fn fetch_sub(&self, val: usize, o: Ordering) -> usize {
         rt::before(&self.id, self.addr());
         let r = self.v.fetch_sub(val, Ordering::SeqCst);
-        rt::after(&self.id, self.addr(), OpKind::Rmw, o, o, r, r.wrapping_sub(val));
+        let _ = rt::after(&self.id, self.addr(), OpKind::Rmw, o, o, r, r.wrapping_sub(val));
         r
     }
     pub fn compare_exchange(&self, cur: usize, new: usize, s: Ordering, f: Ordering) -> Result<usize, usize> {
         rt::before(&self.id, self.addr());
         let r = self.v.compare_exchange(cur, new, Ordering::SeqCst, Ordering::SeqCst);
         match r {
-            Ok(old) => rt::after(&self.id, self.addr(), OpKind::CasOk, s, f, old, new),
-            Err(old) => rt::after(&self.id, self.addr(), OpKind::CasFail, s, f, old, old),
+            Ok(old) => drop(rt::after(&self.id, self.addr(), OpKind::CasOk, s, f, old, new)),
+            Err(old) => drop(rt::after(&self.id, self.addr(), OpKind::CasFail, s, f, old, old)),
         }
         r
     }
     pub fn get_mut(&mut self) -> &mut usize {
-        rt::after(&self.id, self as *const _ as usize, OpKind::GetMut, Ordering::Relaxed, Ordering::Relaxed, 0, 0);
+        let _ = rt::after(&self.id, self as *const _ as usize, OpKind::GetMut, Ordering::Relaxed, Ordering::Relaxed, 0, 0);
         self.v.get_mut()
     }
     pub fn into_inner(self) -> usize {
@@ -89,25 +88,24 @@ impl<T> AtomicPtr<T> {
     pub fn load(&self, o: Ordering) -> *mut T {
         rt::before(&self.id, self.addr());
         let r = self.v.load(Ordering::SeqCst);
-        rt::after(&self.id, self.addr(), OpKind::Load, o, o, r as usize, r as usize);
-        r
+        rt::after(&self.id, self.addr(), OpKind::Load, o, o, r as usize, r as usize) as *mut T
     }
     pub fn store(&self, p: *mut T, o: Ordering) {
         rt::before(&self.id, self.addr());
-        self.v.store(p, Ordering::SeqCst);
-        rt::after(&self.id, self.addr(), OpKind::Store, o, o, p as usize, p as usize);
+        let old = self.v.swap(p, Ordering::SeqCst);
+        let _ = rt::after(&self.id, self.addr(), OpKind::Store, o, o, old as usize, p as usize);
     }
     pub fn compare_exchange(&self, cur: *mut T, new: *mut T, s: Ordering, f: Ordering) -> Result<*mut T, *mut T> {
         rt::before(&self.id, self.addr());
         let r = self.v.compare_exchange(cur, new, Ordering::SeqCst, Ordering::SeqCst);
         match r {
-            Ok(old) => rt::after(&self.id, self.addr(), OpKind::CasOk, s, f, old as usize, new as usize),
-            Err(old) => rt::after(&self.id, self.addr(), OpKind::CasFail, s, f, old as usize, old as usize),
+            Ok(old) => drop(rt::after(&self.id, self.addr(), OpKind::CasOk, s, f, old as usize, new as usize)),
+            Err(old) => drop(rt::after(&self.id, self.addr(), OpKind::CasFail, s, f, old as usize, old as usize)),
         }
         r
     }
     pub fn get_mut(&mut self) -> &mut *mut T {
-        rt::after(&self.id, self as *const _ as usize, OpKind::GetMut, Ordering::Relaxed, Ordering::Relaxed, 0, 0);
+        let _ = rt::after(&self.id, self as *const _ as usize, OpKind::GetMut, Ordering::Relaxed, Ordering::Relaxed, 0, 0);
         self.v.get_mut()
     }
     pub fn into_inner(self) -> *mut T {
